@@ -123,6 +123,8 @@ class World:
         self.opi = -1
         self.cur_op = None
         self._nviol = {}
+        self.async_in_to_string = None
+        self._fs_seen = 0
 
     # ------------------------------------------------------------ helpers
     def count(self, key, n=1):
@@ -203,6 +205,15 @@ class World:
                     if 'musicxml' in fn:
                         w.async_exc_at = None
                         w.count('fault.async.exc')
+                        # is the public to_string() on the stack?  (then the document text does not exist yet)
+                        f = sys._getframe(1)
+                        inside = False
+                        while f is not None:
+                            if f.f_code.co_name == 'to_string' and 'musicxml' in f.f_code.co_filename:
+                                inside = True
+                                break
+                            f = f.f_back
+                        w.async_in_to_string = inside
                         raise SimInterrupt()
                     w.async_exc_at += 1
             mon.register_callback(mon.PROFILER_ID, mon.events.PY_START, cb)
@@ -582,6 +593,11 @@ class World:
                 r = self.call(lambda: root.el.write(path))
         finally:
             self.fs.uninstall()
+        for k in self.fs.fired[self._fs_seen:]:
+            self.count('fault.' + k)
+        self._fs_seen = len(self.fs.fired)
+        if self.fs.default_encoding != 'utf-8':
+            self.count('fault.fs.encoding=' + self.fs.default_encoding)
         if r[0] == 'ok':
             return ('ok', None)
         return ('exc', r[1], 'write')
